@@ -32,7 +32,7 @@ from ..basetypes import (
 )
 from ..constructeddata import Array, ArrayOf, SequenceOf
 
-from ..errors import ExecutionError
+from ..errors import ExecutionError, InvalidParameterDatatype
 from ..object import (
     Property,
     ReadableProperty,
@@ -943,6 +943,20 @@ def Commandable(
                     else:
                         if _debug:
                             Commandable._debug("    - write a value")
+
+                        # the value has to be acceptable before it changes
+                        # the priority array, a refused write changes nothing
+                        if issubclass(datatype, Atomic):
+                            if not datatype.is_valid(value):
+                                raise InvalidParameterDatatype(
+                                    "%s must be of type %s"
+                                    % (presentValue, datatype.__name__)
+                                )
+                        elif not isinstance(value, datatype):
+                            raise InvalidParameterDatatype(
+                                "%s must be of type %s"
+                                % (presentValue, datatype.__name__)
+                            )
 
                         if issubclass(datatype, Enumerated):
                             value = datatype._xlate_table[value]
